@@ -321,7 +321,7 @@ func edits(full bool) (states, transitions int, cands []candidate) {
 	// closure): validated on every two-edit history from a slice of the initial templates
 	indepChecked := 0
 	for i, p0 := range all {
-		if !full && i%8 != 0 {
+		if (!full && i%8 != 0) || (full && i%48 != 0) {
 			continue
 		}
 		for _, p1 := range neighbours(p0) {
